@@ -68,8 +68,15 @@ def impl_encode(g, v, tn, reform=True):
     return ("ok", buf.getvalue())
 
 
+HANGS = {"n": 0}
+
+
 def impl_decode(g, bs, tn, env):
     S = g.AuxData.serializer
+    if HANGS["n"] >= 6:
+        # six decodes of this run have hit the time limit already (each is reported where it happened): the rest of the run does not
+        # wait for more of them
+        return ("err", "HANG")
     try:
         with time_limit(5):
             # the byte string itself, another bytes-like object, or a binary stream positioned at the value
@@ -84,6 +91,7 @@ def impl_decode(g, bs, tn, env):
             FORMS["decode_from:" + type(src).__name__] = FORMS.get("decode_from:" + type(src).__name__, 0) + 1
             v = S.decode(src, tn, env.ir.get_by_uuid)
     except ImplTimeout:
+        HANGS["n"] += 1
         return ("err", "HANG")
     except MemoryError:
         return ("err", "MemoryError")
